@@ -86,8 +86,18 @@ def mask_guard_of_loop(loop, chan_name_hint=None):
                 out["mask_expr"] = b["e"]
                 out["body"] = body
         return out
-    # `if *active { ... }` as the only statement, iterating the mask itself
+    # `if MASK[chan] { ... }` as the only statement of a loop over something else (the buffers): same as .filter(|(chan, _)| MASK[*chan])
     live = [s for s in body if not _noop(s)]
+    if len(live) == 1 and _stmt_expr(live[0]) is not None and _stmt_expr(live[0]).get("k") == "if" and not _stmt_expr(live[0]).get("else"):
+        c0 = _stmt_expr(live[0])["c"]
+        while c0.get("k") == "paren":
+            c0 = c0["e"]
+        if c0.get("k") == "index" and is_path(c0["i"], names[0]):
+            out["guard"] = "filter-mask"
+            out["mask_expr"] = c0["e"]
+            out["body"] = _stmt_expr(live[0])["then"]["stmts"]
+            return out
+    # `if *active { ... }` as the only statement, iterating the mask itself
     if len(live) == 1 and _stmt_expr(live[0]) is not None and _stmt_expr(live[0]).get("k") == "if":
         iff = _stmt_expr(live[0])
         c = iff["c"]
